@@ -136,6 +136,7 @@ func c12NewConn(ctx context.Context, cfg c12Cfg, nc *c12NetConn, dp *c12Datapath
 		accessIP:        net.ParseIP("198.18.0.1"),
 		coreIP:          net.ParseIP("198.19.0.1"),
 		datapath:        dp,
+		fteidGenerator:  NewFTEIDGenerator(),
 		maxReqRetries:   n,
 		respTimeout:     respTimeout,
 		hbInterval:      hbInterval,
